@@ -1,8 +1,146 @@
-import AlgoVerif.Model.LedgerCore
-namespace Props.C19
-open AlgoVerif.Model.LedgerCore
+/-
+C19 — Transaction groups apply atomically.
 
-/-- placeholder while the pipeline is brought up; replaced by the property theorems -/
-theorem empty_group_noop (P : Params) (x : Ctx) (s : EvalState) : evalGroup P x s [] = .ok s := rfl
+All theorems are about `Model.LedgerCore` (a line-for-line model of ledger/eval/eval.go:TransactionGroup / transaction /
+applyTransaction and ledger/eval/cow.go:child / commitToParent / lookups; the real evaluator is tied to it on every run by the
+LedgerCore correspondence harness) and quantify over ALL parameters, contexts (stacks of parent layers over a base), evaluator
+states and groups of the modelled transaction kinds (payment, keyreg, asset config / transfer / freeze).
+
+The model is functional: every operation takes the parents as a read-only context (`Ctx`) and returns a new innermost layer,
+so non-leakage into the parent is manifest; what needs proof is that the layered implementation strategy is sound:
+a lookup through child and parents equals the lookup in the merged layer (`layers_lookup`, `commitToParent_merge`), for which the
+child must be well-formed (no duplicate keys: built by Upsert) and coherent (its `AssetResourceRecord`s say "absent" only where
+the parents show nothing — the reason `putAssetHolding` copies the sibling params it finds), both of which every group's child
+is (`group_commit`).  Not modelled: the `corruptedState` guard, Go map aliasing / pooled child cows (visible to the tie only).
+-/
+import AlgoVerif.Lemmas.LedgerCoreGroup
+namespace Props.C19
+open AlgoVerif.Model.LedgerCore AlgoVerif.Lemmas.LedgerCore
+
+/-- what the harness does with a group: a failing group is dropped -/
+def tryGroup (P : Params) (x : Ctx) (s : EvalState) (g : List Txn) : EvalState :=
+  match evalGroup P x s g with
+  | .ok s' => s'
+  | .error _ => s
+
+/-- `group_atomic`: if any member fails (or the group is malformed / underpaid / oversized) the evaluator state — top-level
+layer, hence every lookup, the txn counter, the fees collected — and the payset are exactly as before, and the rest of the
+block is evaluated from that state. -/
+theorem group_atomic (P : Params) (x : Ctx) (s : EvalState) (g : List Txn) (e : GErr)
+    (h : evalGroup P x s g = .error e) :
+    tryGroup P x s g = s ∧ ∀ gs, evalBlock P x s (g :: gs) = evalBlock P x s gs := by
+  refine ⟨by simp [tryGroup, h], fun gs => ?_⟩
+  show (match evalGroup P x s g with | .ok s' => evalBlock P x s' gs | .error _ => evalBlock P x s gs) = _
+  rw [h]
+
+/-- a failure is detected inside the child: nothing of the group's partial effects exists outside `evalGroupChild` -/
+theorem group_error_in_child (P : Params) (x : Ctx) (s : EvalState) (g : List Txn) (e : GErr)
+    (h : evalGroup P x s g = .error e) : evalGroupChild P x s.top g = .error e := by
+  unfold evalGroup at h
+  split at h
+  · cases h
+  · split at h
+    · rename_i e' he; cases h; exact he
+    · cases h
+
+/-- `group_commit`: an accepted group extends the payset by exactly its members and replaces the top layer by the commit of the
+group's child, whose views (accounts, asset params, holdings, creators, counter, seen tx ids) are exactly those seen through the
+child at the end of the group. -/
+theorem group_commit (P : Params) (x : Ctx) (s s' : EvalState) (g : List Txn) (hg : g ≠ [])
+    (h : evalGroup P x s g = .ok s') :
+    ∃ child, evalGroupChild P x s.top g = .ok child ∧
+      s'.payset = s.payset ++ g ∧ s'.top = commitToParent child s.top ∧
+      (∀ a, acctOf x s'.top a = acctOf (childCtx x s.top) child a) ∧
+      (∀ k, paramsOf x s'.top k = paramsOf (childCtx x s.top) child k) ∧
+      (∀ k, holdingOf x s'.top k = holdingOf (childCtx x s.top) child k) ∧
+      (∀ i, creatorOf x s'.top i = creatorOf (childCtx x s.top) child i) ∧
+      counterOf x s'.top = counterOf (childCtx x s.top) child ∧
+      (∀ id, seenTx x s'.top id = seenTx (childCtx x s.top) child id) := by
+  obtain ⟨child, hc, rfl⟩ := evalGroup_ok hg h
+  have hw := evalGroupChild_wf hc
+  have hco := evalGroupChild_coherent hc
+  exact ⟨child, hc, rfl, rfl, acctOf_commit x child s.top hw, paramsOf_commit x child s.top hw hco,
+    holdingOf_commit x child s.top hw hco, creatorOf_commit x child s.top hw,
+    counter_commit child s.top x.parents x.base, seenTx_commit child s.top x.parents x.base⟩
+
+/-- the empty group is accepted and changes nothing -/
+theorem group_empty (P : Params) (x : Ctx) (s : EvalState) : evalGroup P x s [] = .ok s := rfl
+
+/-- `commitToParent_merge`: after `MergeAccounts` a key maps to the child's entry when the child has one, else to the parent's
+(accounts, asset resource records, creatables); the child's tx ids follow the parent's (Intra re-indexing); txn count and fees add. -/
+theorem commitToParent_merge (c p : Layer) (hw : Layer.WF c) :
+    (∀ a, alookup a (commitToParent c p).accts = (alookup a c.accts).or (alookup a p.accts)) ∧
+    (∀ k, alookup k (commitToParent c p).res = (alookup k c.res).or (alookup k p.res)) ∧
+    (∀ i, alookup i (commitToParent c p).creat = (alookup i c.creat).or (alookup i p.creat)) ∧
+    (commitToParent c p).txids = p.txids ++ c.txids ∧
+    (commitToParent c p).txnCount = p.txnCount + c.txnCount ∧
+    (commitToParent c p).fees = (p.fees + c.fees) % M64 :=
+  ⟨fun a => alookup_mergeInto c.accts p.accts hw.accts a, fun k => alookup_mergeInto c.res p.res hw.res k,
+   fun i => alookup_mergeInto c.creat p.creat hw.creat i, rfl, rfl, rfl⟩
+
+/-- one level of `layers_lookup`: every lookup through child and parent = the lookup in the merged layer -/
+theorem layers_lookup_one (c p : Layer) (ps : List Layer) (b : Base) (hw : Layer.WF c) (hc : Coherent ⟨p :: ps, b⟩ c) :
+    (∀ a, lookupAcct (commitToParent c p :: ps) b a = lookupAcct (c :: p :: ps) b a) ∧
+    (∀ k, lookupParamsD (commitToParent c p :: ps) b k = lookupParamsD (c :: p :: ps) b k) ∧
+    (∀ k, lookupHoldingD (commitToParent c p :: ps) b k = lookupHoldingD (c :: p :: ps) b k) ∧
+    (∀ i, lookupCreator (commitToParent c p :: ps) b i = lookupCreator (c :: p :: ps) b i) :=
+  ⟨lookupAcct_commit c p ps b hw, lookupParamsD_commit c p ps b hw hc, lookupHoldingD_commit c p ps b hw hc,
+   lookupCreator_commit c p ps b hw⟩
+
+/-- `layers_lookup`: for a stack of any depth, collapsing all layers into one (commit child into parent, repeatedly) does not
+change any lookup.  Induction over the layers. -/
+theorem layers_lookup (b : Base) : ∀ (ps : List Layer) (c : Layer), StackOK b (c :: ps) →
+    (∀ a, lookupAcct [collapse c ps] b a = lookupAcct (c :: ps) b a) ∧
+    (∀ k, lookupParamsD [collapse c ps] b k = lookupParamsD (c :: ps) b k) ∧
+    (∀ k, lookupHoldingD [collapse c ps] b k = lookupHoldingD (c :: ps) b k) ∧
+    (∀ i, lookupCreator [collapse c ps] b i = lookupCreator (c :: ps) b i) := by
+  intro ps
+  induction ps with
+  | nil => intro c _; exact ⟨fun _ => rfl, fun _ => rfl, fun _ => rfl, fun _ => rfl⟩
+  | cons p r ih =>
+    intro c ⟨hw, hc, hwp, hcp, hr⟩
+    have hok : StackOK b (commitToParent c p :: r) := ⟨wf_commit hwp, coherent_commit hw hc hcp, hr⟩
+    obtain ⟨i1, i2, i3, i4⟩ := ih (commitToParent c p) hok
+    obtain ⟨o1, o2, o3, o4⟩ := layers_lookup_one c p r b hw hc
+    exact ⟨fun a => (i1 a).trans (o1 a), fun k => (i2 k).trans (o2 k), fun k => (i3 k).trans (o3 k),
+      fun i => (i4 i).trans (o4 i)⟩
+
+/-- the hypotheses of `layers_lookup` hold for what the evaluator builds: the child of every group, at every point of its
+evaluation, is well-formed and coherent with the layers below it -/
+theorem child_stack_ok (P : Params) (x : Ctx) (top child : Layer) (g : List Txn)
+    (h : evalGroupChild P x top g = .ok child) (hx : StackOK x.base (top :: x.parents)) :
+    StackOK x.base (child :: top :: x.parents) :=
+  ⟨evalGroupChild_wf h, evalGroupChild_coherent h, hx⟩
+
+/-- and the committed top layer is again well-formed and coherent (so the invariant holds along the whole block) -/
+theorem top_stack_ok (P : Params) (x : Ctx) (s s' : EvalState) (g : List Txn)
+    (h : evalGroup P x s g = .ok s') (hx : StackOK x.base (s.top :: x.parents)) : StackOK x.base (s'.top :: x.parents) := by
+  cases g with
+  | nil => cases h; exact hx
+  | cons t r =>
+    obtain ⟨child, hc, rfl⟩ := evalGroup_ok (by simp) h
+    obtain ⟨hw, hco, hr⟩ := hx
+    exact ⟨wf_commit hw, coherent_commit (evalGroupChild_wf hc) (evalGroupChild_coherent hc) hco, hr⟩
+
+/-! ### non-vacuity: a concrete failing group (second member overspends after the first was applied in the child) and a
+concrete accepted one, on a base with two funded accounts -/
+
+def exBase : Base := { accts := [(1, { bal := 5000000 }), (2, { bal := 300000 }), (7, { status := .notPart, bal := 100000 })] }
+def exPay (snd rcv amt note : Nat) : Txn :=
+  { kind := .pay, sender := snd, fee := 1000, fv := 1, lv := 10, note := note, grp := 1, receiver := rcv, amount := amt }
+
+def failsWith (r : Except GErr EvalState) (e : GErr) : Bool :=
+  match r with
+  | .error e' => decide (e' = e)
+  | .ok _ => false
+def okWith (r : Except GErr EvalState) (f : EvalState → Bool) : Bool :=
+  match r with
+  | .error _ => false
+  | .ok s => f s
+
+example : failsWith (evalGroup {} ⟨[], exBase⟩ {} [exPay 1 2 1000000 1, exPay 2 1 9000000 2]) (.overspend, some 1) = true := by decide
+example : okWith (evalGroup {} ⟨[], exBase⟩ {} [exPay 1 2 1000000 1, exPay 2 1 1100000 2])
+    (fun s => s.payset.length == 2 && (acctOf ⟨[], exBase⟩ s.top 2).bal == 199000) = true := by decide
+example : StackOK exBase [({} : Layer)] := ⟨wf_empty, coherent_empty _, trivial⟩
 
 end Props.C19
